@@ -292,12 +292,89 @@ end OV.C01
 
 namespace OV.C01
 
-/-- Straight-line bodies: assignments (and docstrings) followed by one `return e1, …, en`. -/
+/-- Straight-line bodies: assignments `x = e`, parallel assignments `x, y = e1, e2` (and docstrings)
+followed by one `return e1, …, en`. -/
 def straightLine : List Stmt → Bool
   | [] => false
   | [.ret _ bare] => !bare
   | .assign _ _ :: ss => straightLine ss
+  | .par _ _ :: ss => straightLine ss
   | .skip :: ss => straightLine ss
   | _ => false
+
+end OV.C01
+
+namespace OV.C01
+
+def vsubset (a b : VSet) : Bool := a.all (fun x => b.contains x)
+
+mutual
+/-- The `while curr != prev` iterations of `do_liveness_analysis` have reached their fixpoints (the model
+iterates with fuel; the real code iterates until stable, so there this always holds on termination). -/
+def stableStmt : Stmt → VSet → Bool
+  | .ite _ t e, lo => stableBlock t lo && stableBlock e lo
+  | .for_ i ok b body, lo =>
+    let F := loopBodyLo (.for_ i ok b body) lo
+    vsubset lo F && vsubset (vdiff (liveInBlock body F) [i]) F && stableBlock body F
+  | .while_ c body, lo =>
+    let F := loopBodyLo (.while_ c body) lo
+    vsubset lo F && vsubset (usedVars c) F && vsubset (liveInBlock body F) F && stableBlock body F
+  | _, _ => true
+def stableBlock : List Stmt → VSet → Bool
+  | [], _ => true
+  | s :: ss, lo => stableStmt s (liveInBlock ss lo) && stableBlock ss lo
+end
+
+mutual
+/-- `break` occurs only as `if b: break` at the very end of a loop body (what the converter accepts). -/
+def noBrkS : Stmt → Bool
+  | .brk _ => false
+  | .ite _ t e => noBrkL t && noBrkL e
+  | .for_ _ _ _ body => bodyBrkOK body
+  | .while_ _ body => bodyBrkOK body
+  | _ => true
+def noBrkL : List Stmt → Bool
+  | [] => true
+  | s :: ss => noBrkS s && noBrkL ss
+/-- A loop body: break-free statements, optionally followed by one trailing `if b: break`. -/
+def bodyBrkOK : List Stmt → Bool
+  | [] => true
+  | s :: ss => (match s, ss with
+                | .brk _, [] => true
+                | _, _ => noBrkS s) && bodyBrkOK ss
+end
+
+end OV.C01
+
+namespace OV.C01
+
+/-- The expression does not denote a bare Python scalar (a literal or a negated literal): its value, when it
+has one, is a tensor (given that all variables hold tensors). -/
+def tensorRhs : Expr → Bool
+  | .lit _ => false
+  | .unop o a => (negatedLiteral o a).isNone
+  | _ => true
+
+mutual
+/-- Statements of the `if` fragment: assignments and parallel assignments of tensor-valued expressions,
+docstrings, and `if`/`else` over such statements, nested to any depth. -/
+def ifStmt : Stmt → Bool
+  | .assign _ e => tensorRhs e
+  | .par _ es => es.all tensorRhs
+  | .skip => true
+  | .ite c t e => tensorRhs c && ifBlock t && ifBlock e
+  | _ => false
+def ifBlock : List Stmt → Bool
+  | [] => true
+  | s :: ss => ifStmt s && ifBlock ss
+end
+
+/-- Function bodies of the `if` fragment: such statements followed by one `return e1, …, en`. -/
+def ifLine : List Stmt → Bool
+  | [] => false
+  | s :: ss =>
+    match s, ss with
+    | .ret _ bare, [] => !bare
+    | _, _ => ifStmt s && ifLine ss
 
 end OV.C01
